@@ -32,6 +32,7 @@ def register(reg):
     reg.add_extern('time.sleep', TimeSleep)
     register_re(reg)
     register_codecs(reg)
+    register_int(reg)
 
 
 class ReSearch(Contract):
@@ -100,3 +101,22 @@ def register_codecs(reg):
     reg.add_extern('codecs.getincrementaldecoder', OpaqueFactory)
     reg.add_extern('codecs.getincrementalencoder', OpaqueFactory)
     reg.add_extern('opaque.__call__', OpaqueFactory)
+
+
+class IntOfString(Contract):
+    """int(s) for a string: s must consist of digits and stay below CPython's int-string conversion limit
+    (sys.get_int_max_str_digits() == 4300 by default); otherwise ValueError."""
+    params = ['s']
+
+    def requires(self, v):
+        return [('digits-only', is_digits(v.a.s)), ('within-int-digit-limit', length(v.a.s) <= 4300)]
+
+    def outcomes(self, v):
+        return [Ret(T.Int)]
+
+    def ensures(self, v):
+        return [('value', And(eq(v.result, int_of(v.old.s)), v.result >= 0))]
+
+
+def register_int(reg):
+    reg.add_extern('builtins.int', IntOfString)
